@@ -25,7 +25,7 @@ returned bucket when more remain); `compositeWalk` is the client loop that sends
 * `composite_keys_wf` — the keys the collector builds are well-formed for its sources;
   `mechanism_pages_partial` — the mechanism's response for `(size, after)` (any segmentation, safe
   request in the sense of C12) is `compositePage` of one bucket map that does not depend on
-  `(size, after)`; `composite_paging_complete_partial` puts the two together.
+  `(size, after)`; `composite_paging_complete` puts the two together.
 
 Tie to the code: `Drv/C30` runs `compositePage`, `afterOfKey`, `Part.lt`; the harness walks
 the real aggregation by sending `after_key` back and compares every page with the model and the
@@ -268,12 +268,9 @@ theorem wfKey_combos (d : Doc φ κ) :
       obtain ⟨x, _, rfl⟩ := hv
       simpa [kindsOf, CSrc.isTerms, wfKey] using ih
     | hist f i c64 =>
-      simp only [srcParts] at hv
-      split at hv
-      · simp only [List.mem_map] at hv
-        obtain ⟨x, _, rfl⟩ := hv
-        simpa [kindsOf, CSrc.isTerms, wfKey] using ih
-      · simp at hv
+      simp only [srcParts, List.mem_map] at hv
+      obtain ⟨x, _, rfl⟩ := hv
+      simpa [kindsOf, CSrc.isTerms, wfKey] using ih
 
 /-- **composite_buckets_wf** — every key the collector builds for a document is a composite key
 whose parts have the kinds of the sources -/
@@ -321,26 +318,27 @@ theorem compositeMap_wf (h : StrictTotal (KOrd.lt (κ := κ))) (names : List ν)
   obtain ⟨d, _, hd⟩ := hm
   exact composite_keys_wf names srcs hl 0 none d x.1 hd
 
-/-- **mechanism_pages (partial: safe request)** — for every segmentation, the mechanism's response
+/-- **mechanism_pages (partial: children free of the open date_histogram fill case)** — for every segmentation, the mechanism's response
 to the composite request `(size, after)` is the page `compositePage size after` of the one map
 `compositeMap`, whatever `size` and `after` are -/
 theorem mechanism_pages_partial (h : StrictTotal (KOrd.lt (κ := κ))) (srcs : List (CSrc φ))
     (size : Nat) (after : Option (List (Part κ))) (subs : Aggs φ κ)
-    (hs : (Agg.bucket (.composite srcs size after) subs).safe = true)
+    (hs : subs.safe = true)
     (s₀ : List (Doc φ κ)) (rest : List (List (Doc φ κ))) :
     run (.bucket (.composite srcs size after) subs) (s₀ :: rest) =
       some (.buckets (compositePage size after (compositeMap srcs subs (s₀ ++ rest.flatten))).1
                      (compositePage size after (compositeMap srcs subs (s₀ ++ rest.flatten))).2) := by
-  rw [segmentation_independent_partial h _ hs]
-  have hb : (BSpec.composite srcs size after : BSpec φ κ).safe = true := by
-    simp only [Agg.safe, Bool.and_eq_true] at hs; exact hs.1
+  have hb : (BSpec.composite srcs size after : BSpec φ κ).safe = true := rfl
+  have ha : (Agg.bucket (.composite srcs size after) subs).safe = true := by
+    simp only [Agg.safe, hb, hs, Bool.and_self]
+  rw [segmentation_independent_partial h _ ha]
   simp only [Spec.agg, rawBuckets_ideal hb]
   rfl
 
-/-- **C30 for the mechanism (partial: safe request, distinct source names)** — the pages obtained
+/-- **C30 for the mechanism (distinct source names)** — the pages obtained
 by sending each `after_key` back are a complete, duplicate-free, order-preserving partition of
 the buckets of the unpaged aggregation, and `after_key` is absent exactly on the last page -/
-theorem composite_paging_complete_partial (h : StrictTotal (KOrd.lt (κ := κ))) (names : List ν)
+theorem composite_paging_complete (h : StrictTotal (KOrd.lt (κ := κ))) (names : List ν)
     (srcs : List (CSrc φ)) (hl : names.length = srcs.length) (hnd : names.Nodup)
     (size : Nat) (hsize : 0 < size) (subs : Aggs φ κ) (docs : List (Doc φ κ)) :
     let m := compositeMap srcs subs docs
